@@ -24,6 +24,8 @@ enum Task {
     Hash { id: HashId, msg: Vec<u8>, exp: Vec<u8> },
     Cipher { ty: &'static str, key: [u8; 32], nonce: Vec<u8>, pos: u64, data: Vec<u8>, exp: Vec<u8> },
     Tf { nb: usize, key: Vec<u8>, t0: u64, t1: u64, blk: Vec<u8>, exp: Vec<u8> },
+    /// one keyed instance shared by all threads (`encrypt_block(&self)`, `decrypt_block(&self)`)
+    TfShared { fish: Arc<threefish_cipher::Threefish512>, blk: Vec<u8>, exp: Vec<u8> },
 }
 
 impl Task {
@@ -32,6 +34,7 @@ impl Task {
             Task::Hash { id, .. } => id.name(),
             Task::Cipher { ty, data, .. } => format!("{}-{}", ty, if data.len() >= 4096 { "bulk" } else if data.len() >= 256 { "wide" } else { "narrow" }),
             Task::Tf { nb, .. } => format!("Threefish{}", nb * 8),
+            Task::TfShared { .. } => "Threefish512-shared-instance".to_string(),
         }
     }
     fn run(&self) -> Result<(), String> {
@@ -54,6 +57,18 @@ impl Task {
                 c.try_apply(&mut d).map_err(|_| "apply failed".to_string())?;
                 if &d != exp {
                     return Err(format!("{} keystream ({} bytes at {}) differs from the single-threaded reference result", ty, data.len(), pos));
+                }
+            }
+            Task::TfShared { fish, blk, exp } => {
+                use cipher::BlockDecrypt;
+                let mut b = blk.clone();
+                fish.encrypt_block(GenericArray::from_mut_slice(&mut b));
+                if &b != exp {
+                    return Err("Threefish-512 on an instance shared between threads differs from the single-threaded reference result".to_string());
+                }
+                fish.decrypt_block(GenericArray::from_mut_slice(&mut b));
+                if &b != blk {
+                    return Err("Threefish-512 decrypt on an instance shared between threads does not restore the block".to_string());
                 }
             }
             Task::Tf { nb, key, t0, t1, blk, exp } => {
@@ -133,6 +148,10 @@ fn entry_tasks(r: &mut Rng) -> Vec<Task> {
     v.push(make_hash(r, h(Fam::Jh, 512), hl(300)));
     v.push(make_hash(r, h(Fam::Skein, 512), hl(300)));
     v.push(make_hash(r, h(Fam::Skein, 1024), hl(300)));
+    // output longer than the state (several counter-mode output blocks), two lengths per state size
+    for (bits, out) in [(256u32, 100usize), (256, 65), (512, 129), (512, 200), (1024, 300), (1024, 257)] {
+        v.push(make_hash(r, HashId { fam: Fam::Skein, bits, out }, hl(200)));
+    }
     if bulk {
         v.push(make_cipher(r, "ChaCha20", 4096));
         v.push(make_cipher(r, "ChaCha8", 16384 + 700));
@@ -147,6 +166,10 @@ fn entry_tasks(r: &mut Rng) -> Vec<Task> {
     }
     v.push(make_tf(r, 32));
     v.push(make_tf(r, 128));
+    if let Task::Tf { key, t0, t1, blk, exp, .. } = make_tf(r, 64) {
+        let fish = Arc::new(threefish_cipher::Threefish512::with_tweak(GenericArray::from_slice(&key), t0, t1));
+        v.push(Task::TfShared { fish, blk, exp });
+    }
     v
 }
 
